@@ -451,6 +451,9 @@ pub struct Family {
     /// keep wirings that contain a data cycle not broken by a `defer_tick*` input
     /// (those are C19's must-reject programs; the builder/partitioner rejects them).
     pub cycles: bool,
+    /// require weak connectivity (pipe edges + references); `false` admits several components
+    /// that meet only through a shared loop context.
+    pub connected: bool,
 }
 
 fn multisets(alpha: &[Kind], n: usize) -> Vec<Vec<Kind>> {
@@ -641,7 +644,7 @@ impl Family {
         for edges in matchings(kinds, !self.cycles) {
             for refs in &decos {
                 let p = Prog { kinds: kinds.to_vec(), edges: edges.clone(), refs: refs.clone() };
-                if !p.weakly_connected() {
+                if self.connected && !p.weakly_connected() {
                     continue;
                 }
                 let Some(ctx) = p.contexts() else { continue };
@@ -726,6 +729,12 @@ fn f_refs_big(ks: &[Kind]) -> bool {
         && count(ks, |k| matches!(k, DeferTick | Batch0)) <= 1
 }
 
+fn f_loops_multi(ks: &[Kind]) -> bool {
+    count(ks, |k| k == Src) == 2
+        && count(ks, |k| matches!(k, Batch0 | BatchLazy0)) == 2
+        && count(ks, |k| k == AllIter) <= 1
+        && count(ks, |k| matches!(k, Tee2 | Union2)) <= 1
+}
 fn f_loop_refs(ks: &[Kind]) -> bool {
     count(ks, |k| k.is_hoff()) == 1
         && count(ks, |k| k == Batch0) == 1
@@ -759,6 +768,18 @@ pub fn families(thorough: bool) -> Vec<Family> {
         max_refs,
         filter,
         cycles,
+        connected: true,
+    };
+    // components that meet only inside a shared loop (the #3048 regression shape and relatives)
+    let multi = |n_max| Family {
+        name: "loops-multi",
+        alphabet: vec![Src, Sink, Map, Tee2, Union2, Batch0, BatchLazy0, AllIter],
+        n_min: 6,
+        n_max,
+        max_refs: 0,
+        filter: f_loops_multi,
+        cycles: false,
+        connected: false,
     };
     let mut v = vec![];
     if !thorough {
@@ -773,6 +794,7 @@ pub fn families(thorough: bool) -> Vec<Family> {
         v.push(fam("unary", unary_alpha.clone(), 3, 5, 0, f_unary, false));
         v.push(fam("cyc-loops", loops_alpha.clone(), 3, 5, 0, f_loops, true));
         v.push(fam("loop-refs", vec![Src, Sink, Map, Tee2, Batch0, AllIter, HoffSing0, HoffSing1], 5, 6, 1, f_loop_refs, false));
+        v.push(multi(7));
     } else {
         v.push(fam("cyc-shapes", [base.clone(), vec![DeferTick]].concat(), 1, 5, 0, f_shapes5, true));
         v.push(fam("cyc-classes", with_multi.clone(), 1, 4, 0, f_two_special, true));
@@ -794,6 +816,7 @@ pub fn families(thorough: bool) -> Vec<Family> {
         ));
         v.push(fam("refs", [vec![Src, Sink, Map, Tee2, Union2, SrcRef], hoffs.to_vec()].concat(), 2, 4, 3, f_refs, true));
         v.push(fam("unary", unary_alpha.clone(), 3, 6, 0, f_unary, false));
+        v.push(multi(8));
         v.push(fam(
             "refs5",
             [vec![Src, Sink, Map, Tee2, Union2, DeferTick, Batch0, AllIter], vec![HoffSing0, HoffSing1, HoffVec1]].concat(),
